@@ -10,7 +10,7 @@ out = f"{base}/out"
 avoid = ""
 if round_:
     import re
-    rows = re.findall(r'^\| ' + pid + r'-m\d(?: \([^)]*\))? \| (.*?) \|', open('/verif/DESIGN.md').read(), re.M)
+    rows = re.findall(r'^\| ' + pid + r'-m\d+(?: \([^)]*\))? \| (.*?) \|', open('/verif/DESIGN.md').read(), re.M)
     if rows:
         avoid = ("\n## Already tried (do NOT repeat these ideas or close variants; find different code sites and different failure modes)\n"
                  + "\n".join(f"- {r}" for r in rows) + "\n")
@@ -37,6 +37,7 @@ The two mutants must be different in kind (different code site or different fail
 - Python: `/venv/bin/python` (pynenc's dependencies are installed; `PYTHONPATH={wt}` makes your worktree the imported package — verify with `python -c "import pynenc; print(pynenc.__file__)"`).
 - Read the anchored source files first. Then for each mutant: edit the worktree, run the most relevant existing tests, e.g. `cd {wt} && PYTHONPATH={wt} /venv/bin/python -m pytest -q -p no:cacheprovider pynenc_tests/unit/<area> > {base}/log.txt 2>&1` (ALWAYS redirect pytest output to a file and read the tail of the file; never pipe it — some tests spawn processes that keep pipes open; do not run the whole suite (6 minutes) and do NOT run `pynenc_tests/integration/combinations` at all (multi-process, slow, flaky under load; the maintainer runs the full suite separately) — run only the unit directories and the small integration directories related to the files you touched, at most two pytest runs per mutant), write the demo, check it fails with the patch and passes without (NEVER use `git stash` — it is shared between worktrees; use `git diff > {base}/cur.patch; git checkout -- .` and `git apply {base}/cur.patch`).
 - Save each mutant as `{out}/m1/` and `{out}/m2/` containing: `patch.diff` (from `git -C {wt} diff`, must apply with `git apply` on a clean checkout of HEAD), `demo.py` (+ helper modules), and `notes.md` (what the change is, why a maintainer might make it, why the tests do not notice, exactly what it needs in order to manifest, which tests you ran and their result).
+- Before you finish, make sure that no process you started is still running (`ps -eo pid,ppid,cmd | grep -E 'pytest|multiprocessing|demo.py'`; kill what is yours) and delete the temporary files and directories you created outside `{base}` (pytest leaves `tmp*.db*` files in /tmp: remove those you made). Disk space is short.
 - Leave the worktree CLEAN at the end (`git -C {wt} checkout -- . && git -C {wt} status --short` shows nothing).
 
 Final message: for each mutant a 5-line summary (files touched, idea, what the demo does, demo results with/without patch, tests run).""")
